@@ -8,7 +8,7 @@ func init() {
 		Explanation: "Decides, on every path of the backup call graph, the error discipline without which StoreToDisk reports success for a partial backup: " +
 			"(a/d) no error of an open/write/flush/close/manifest-write call in StoreToDisk, its closures, the file writer, the visitor callback, the delta logger and the handshake is dropped, only tested, or parked in a loop variable that later iterations overwrite unseen; " +
 			"(b) no deferred function overwrites the named error result unless it is nil at that moment; (c) each manifest is written only under success of what it describes (scan -> files.json -> checksums.json; handshake merged before the delta manifests); " +
-			"(d) the GC workers' recorded write error is what the terminate handshake returns. " +
+			"(d) the GC workers' recorded write error is what the terminate handshake returns; (e) the crash half: a shard is complete only with its terminator, DecodeItem reports end-of-stream only for it and ReadItem returns the decoder's error (EOF at an item boundary) unchanged. " +
 			"NOT decided: what a crash image contains (runtime), kernel/filesystem behaviour (no fsync is noted, the statement is about process death).",
 		Assumptions: []string{"os/bufio/ioutil report failures through their error results"},
 		Run: func(c *Ctx) {
@@ -18,6 +18,7 @@ func init() {
 			})
 			c.Do("C12.c", "L1 manifests only after success", 5, func() { clManifestsAfterSuccess(c); clMandatoryManifest(c) })
 			c.Do("C12.d", "L6c write errors surface through the handshake", 3, func() { clHandshakeCarriesError(c) })
+			c.Do("C12.e", "L1 a shard cut off by a crash is recognisable (terminator / EOF discipline, shared with C11.e)", 4, func() { clDecodeItemDiscipline(c); clTerminatorAlways(c) })
 		},
 	})
 }
